@@ -7,6 +7,7 @@ Decided:
              capped at 2^24 - 1 bytes and divided by 8; declared constants equal the grammar's sums
   C11.frame  block framing: the writer flags a block last exactly when none follows, the reader stops on that flag,
              accepts a block only when its parser consumed exactly the declared size, and clamps reads to that size
+  C11.sentinel values the format reserves for "absent" (seek point placeholder marker, all-zero MD5) are not written as present values
   C11.isrc   an ISRC parsed from text has exactly the 12 characters of its on-disk field; the validated, dash-stripped text is stored
   C11.len    every length / count prefix is the length of the very collection written after it, and the reader
              reads exactly that many items (ranges start at 0)
@@ -132,6 +133,32 @@ def run(ctx, rep):
                   "the per-block reader no longer clamps reads to the remaining block size: a block parser can run past its block")
     if not lr:
         rep.bad("C11.frame", "anchor:LimitedReader::read", "", "not found")
+
+    # ---- C11.sentinel: a value that the format reserves for "absent" must not be written as a present value -------
+    sp = [x for x in F.bodies if x.promoted is None and x.path == "<metadata::SeekPoint as bitstream_io::ToBitStream>::to_writer"]
+    if not sp:
+        rep.bad("C11.sentinel", "anchor:SeekPoint::to_writer", "", "not found")
+    else:
+        x = sp[0]
+        pfx = ok.path_facts(x)
+        good = False
+        for bi, t in x.calls():
+            if (t["f"].get("path") or "") == "bitstream_io::BitWrite::write_from" and len(t["a"]) > 1 and op_place(t["a"][1]) is not None:
+                rp = root_place(x, t["a"][1])
+                if rp is not None and place_fields(rp)[-1:] == ["sample_offset"]:
+                    f = pfx.get(bi) or frozenset()
+                    good = any(y[0] == "cmp" and y[1] == "Ne" and "const:18446744073709551615" in (str(y[2]), str(y[3])) and "sample_offset" in str(y[2]) + str(y[3]) for y in f)
+        rep.check("C11.sentinel", "SeekPoint::Defined is written only if its sample offset is not the placeholder marker (2^64 - 1)", good, loc_of(x), "",
+                  "a defined seek point whose sample offset equals the placeholder marker is written and reads back as a placeholder")
+    si = [x for x in F.bodies if x.promoted is None and x.path == "<metadata::Streaminfo as bitstream_io::ToBitStream>::to_writer"]
+    if not si:
+        rep.bad("C11.sentinel", "anchor:Streaminfo::to_writer", "", "not found")
+    else:
+        x = si[0]
+        uo = [t for _, t in x.calls() if re.search(r"Option::<T>::unwrap_or$", callee_name(t)) and "[u8; 16]" in " ".join(t["aty"])]
+        cmp16 = [t for b2 in [x] + F.closures_of(x) for _, t in b2.calls() if re.search(r"PartialEq.*::(eq|ne)$", callee_name(t)) and "[u8; 16]" in " ".join(t["aty"])]
+        rep.check("C11.sentinel", "Streaminfo.md5 = Some(all zero bytes) is not written as the 'unknown' digest", bool(cmp16) or not uo, loc_of(x), "",
+                  "Streaminfo { md5: Some([0; 16]) } is written as sixteen zero bytes, which the reader (and the format) take to mean `no MD5`: the value reads back as None")
 
     # ---- C11.isrc: an ISRC is exactly twelve characters (2 letters, 3 alphanumerics, 2 digits, 5 digits) ----------
     ib = [x for x in F.bodies if x.promoted is None and x.path.startswith("<metadata::cuesheet::ISRCString as std::str::FromStr>::from_str")]
